@@ -10,7 +10,7 @@ AUDIT = "C15"
 THEOREMS = ["Typedpy.C15." + t for t in (
     "frame", "frame_alone", "use_changes_no_view", "use_preserves_coherence",
     "define_preserves_coherence", "define_changes_no_other_class", "accept_decision_frame", "safe_config_of_safe_tables",
-    "C15_of_safe_config", "frame_safe_tables", "tables_safe", "tables_ok",
+    "C15_of_safe_config", "frame_safe_tables", "current_config_safe", "unsafe_rows_are_outside_model", "tables_ok",
     "C15_today", "excluded_today", "use_changes_no_view_today", "pinned_config",
     "config_no_worse", "name_keyed_registry_breaks_frame", "inplace_required_breaks_frame", "registry_fixed_example",
     "required_fixed_example", "C15_statement_fails_with_findings", "counterexamples_are_excluded", "frame_example",
@@ -23,7 +23,14 @@ RULE = ("histories of 2-5 (thorough: 2-7) class definitions — roots, subclasse
         "typedpy fields incl. two field-factory functions shared by all classes and inline StructureReference — "
         "interleaved with 2-8 (thorough: 2-25) uses (construct, serialize and deserialize with camel_case_convert "
         "on or off as a use-parameter, structure_to_schema, create_serializer, trusted deserialization) and "
-        "toggles/restores of 3 global defaults; plus ~80 directed histories: the two repaired defects, positional "
+        "toggles/restores of 3 global defaults; a fifth of the histories are FastSerializable hierarchies that "
+        "refer to each other (fast root, 1-2 fast subclasses adding fields, 1-2 owners — fast or not — with direct / "
+        "Array / optional ClassReference fields to them, owners of owners) used in random order incl. "
+        "create_serializer with serialize_none / compact, instantiation and serialization of the MINIMAL instance "
+        "(optional references omitted, arrays of classes empty): these are outside the Lean model's vocabulary and "
+        "judged by the fresh-interpreter oracle alone (an explicit create_serializer with flags, and a plain one after "
+        "it, counts as configuration of that class and is replayed in its 'alone' run); plus ~190 directed histories: the two repaired defects, FastSerializable base/subclass/owner triples with the serializers generated in "
+        "every order, positional "
         "item classes sharing a mapped field name with the container used before/after the items, every derivation "
         "operator on a class with optional/defaulted/renamed fields, the same class serialized with both "
         "camel_case_convert values in every order.  Each history runs against the real typedpy in a process forked "
